@@ -629,6 +629,15 @@ def stepRest (d : DW) (line : String) : DW × String :=
        let r := e.w.dispatch j p mm
        ({ d with env := some { e with w := r.1 } }, if r.2 then "ok" else "raise")
      | _, _, _ => (d, "bad-op"))
+  | ["eswap", k] => (match d.env, parseFKind k with
+     -- `env.reward_function = Kind(env.dispatcher)`: the replacement is constructed the ordinary way (it subscribes itself;
+     -- the constructor raises when a reward observer of that type is already subscribed) and the environment reads it from now on
+     | some e, some kind =>
+       if kind != .makespanReward && kind != .idleReward then (d, "bad-op") else
+       (match e.w.construct kind none with
+        | (w', some id) => ({ d with env := some { e with w := w', rew := id } }, "ok")
+        | (_, none) => (d, "raise"))
+     | _, _ => (d, "bad-op"))
   | ["esched"] => (match d.env with
      | some e => (d, "sched " ++ " | ".intercalate (e.w.s.sched.map fun ms => " ".intercalate (ms.map (fmtSOp e.w.cfg.I))))
      | none => (d, "bad-op"))
